@@ -184,6 +184,14 @@ pub fn run(ctx: &mut Ctx) {
             }
             clients.push((u, gen_value(ctx)));
         }
+        // the same user name written again right behind itself with another password (a password being rotated): both
+        // pairs are written, both are accepted
+        if ctx.rng.chance(1, 3) && !clients.is_empty() {
+            let k = ctx.rng.below(clients.len() as u64) as usize;
+            let again = (clients[k].0.clone(), format!("{}-new", gen_value(ctx)));
+            clients.insert(k + 1, again);
+            ctx.stat("user_lists_with_a_repeated_user");
+        }
         // near-duplicate user names (letter case, surrounding blanks, a prefix): different users
         if ctx.rng.below(2) == 0 {
             let base = if ctx.rng.below(2) == 0 { clients[0].0.clone() } else { "Alice".to_string() };
@@ -245,8 +253,12 @@ pub fn run(ctx: &mut Ctx) {
                 ctx.oracle_failure("sni_accepted_by_registry", t);
             }
         }
-        // exported client configuration of every client carries that client's own pair
-        for wanted in &clients {
+        // exported client configuration of every client carries that client's own pair (the export is asked for by user
+        // name: of a name written twice it can only mean one pair, and which one the property does not say)
+        for (wi, wanted) in clients.iter().enumerate() {
+            if clients.iter().enumerate().any(|(k, c)| k != wi && c.0 == wanted.0) {
+                continue;
+            }
             let cfg = trusttunnel::client_config::build(
                 &wanted.0,
                 vec!["192.0.2.2:443".parse::<SocketAddr>().unwrap()],
